@@ -171,7 +171,9 @@ class G:
         if r.randrange(3) == 0:
             props.append(("CATEGORIES", (), ("categories", tuple(self.text(2) for _ in range(r.randrange(1, 4))))))
         if r.randrange(4) == 0 and kind in ("VEVENT", "VTODO"):
-            props.append(("GEO", (), ("geo", round(r.uniform(-90, 90), r.randrange(0, 7)), round(r.uniform(-180, 180), r.randrange(0, 7)))))
+            lat = r.choice((round(r.uniform(-90, 90), r.randrange(0, 7)), 1e-05, 2.5e-07, -1.2345e-05, 0.0, 89.99999999999))
+            lon = r.choice((round(r.uniform(-180, 180), r.randrange(0, 7)), 3.3e-06, -9.87654321e-05, 1e-10, 179.999999999))
+            props.append(("GEO", (), ("geo", lat, lon)))
         if r.randrange(4) == 0:
             props.append((r.choice(("PRIORITY", "SEQUENCE")), (), ("int", r.randrange(0, 10))))
         if r.randrange(4) == 0:
@@ -481,10 +483,21 @@ def py_value(v):
     raise ValueError(v)
 
 
-def build(model):
-    """Build the tree through the public API: add(), parameters=, add_component()."""
+SETTERS = {"VEVENT": {"DTSTART": "DTSTART", "DTEND": "DTEND", "DURATION": "DURATION", "DTSTAMP": "DTSTAMP", "LAST-MODIFIED": "LAST_MODIFIED"},
+           "VTODO": {"DTSTART": "DTSTART", "DUE": "DUE", "DURATION": "DURATION", "DTSTAMP": "DTSTAMP", "LAST-MODIFIED": "LAST_MODIFIED"},
+           "VJOURNAL": {"DTSTART": "DTSTART", "DTSTAMP": "DTSTAMP"},
+           "VALARM": {"TRIGGER": "TRIGGER", "DURATION": "DURATION", "ACKNOWLEDGED": "ACKNOWLEDGED", "REPEAT": "REPEAT"}}
+
+
+def build(model, setters=None):
+    """Build the tree through the public API: add(), parameters=, add_component().
+
+    setters: a random.Random - properties that have a descriptor and no parameters are then (sometimes) assigned through the
+    property setter, after an earlier assignment of a *different* value of another kind (zoned / UTC / date) that the final
+    assignment must replace completely."""
     import icalendar
     from icalendar.cal import Component, component_factory
+    from .. import vals
     _, name, props, subs = model
     cls = component_factory.get(name)
     if cls is None:
@@ -492,11 +505,30 @@ def build(model):
         comp.name = name
     else:
         comp = cls()
+    counts = {}
+    for pname, params, v in props:
+        counts[pname.upper()] = counts.get(pname.upper(), 0) + 1
     for pname, params, v in props:
         p = {k: (list(val[1:]) if isinstance(val, tuple) and val and val[0] == "l" else val) for k, val in params}
-        comp.add(pname, py_value(v), parameters=p or None)
+        attr = SETTERS.get(name, {}).get(pname.upper())
+        if setters is not None and attr and not p and counts[pname.upper()] == 1 and v[0] in ("d", "dt", "td", "int") and setters.randrange(2):
+            if v[0] in ("d", "dt") and setters.randrange(3):
+                if attr in ("DTSTAMP", "LAST_MODIFIED", "ACKNOWLEDGED"):
+                    prior = vals.py(("dt", 2001, 2, 3, 4, 5, 6, "zone:Asia/Tokyo"))
+                elif attr == "TRIGGER":
+                    prior = vals.py(("td", -300))
+                else:
+                    prior = vals.py(setters.choice((("dt", 2001, 2, 3, 14, 5, 6, "zone:Europe/Berlin"), ("d", 2001, 2, 3), ("dt", 2001, 2, 3, 14, 5, 6, "UTC"))))
+                setattr(comp, attr, prior)
+            setattr(comp, attr, py_value(v))
+        else:
+            value = py_value(v)
+            if setters is not None and pname.upper() in ("DTSTAMP", "CREATED", "LAST-MODIFIED") and v[0] == "dt" and v[7] == "UTC" and setters.randrange(2):
+                # the same instant in another zone: add() must convert it to UTC (S7)
+                value = value.astimezone(vals.tzinfo_for(setters.choice(("zone:Asia/Tokyo", "zone:America/New_York", "zone:Australia/Lord_Howe"))))
+            comp.add(pname, value, parameters=p or None)
     for s in subs:
-        comp.add_component(build(s))
+        comp.add_component(build(s, setters))
     return comp
 
 
